@@ -124,13 +124,66 @@ impl Drop for CallGuard {
 }
 
 pub fn call_exit(op: &str, args: Value, pre: &Schedule, result: Result<(&Schedule, Value), String>) {
+    let net = network_digest(&pre.get_network());
     let event = match result {
-        Ok((post, ret)) => json!({"ev": "call", "op": op, "args": args, "ok": true, "ret": ret,
+        Ok((post, ret)) => json!({"ev": "call", "op": op, "args": args, "ok": true, "ret": ret, "net": net,
             "pre": project(pre), "post": project(post)}),
-        Err(msg) => json!({"ev": "call", "op": op, "args": args, "ok": false, "ret": {}, "msg": msg,
+        Err(msg) => json!({"ev": "call", "op": op, "args": args, "ok": false, "ret": {}, "msg": msg, "net": net,
             "pre": project(pre)}),
     };
     record_event(event);
+}
+
+/// Fingerprint of a loaded network (nodes with times, places and demand, limits, reachability and
+/// dead-head distances between all nodes, depot capacities, vehicle types, configuration): recorded
+/// events carry it so that a reader can tell which instance a call belongs to.
+pub fn network_digest(network: &model::network::Network) -> String {
+    use std::fmt::Write;
+    let mut nodes: Vec<NodeIdx> = network.all_nodes().collect();
+    nodes.sort_by_key(|&n| network.node(n).id().to_string());
+    let mut text = String::new();
+    for &n in nodes.iter() {
+        let node = network.node(n);
+        let _ = write!(text, "N {} {} {} {} {} {};", node.id(), node.start_time(), node.end_time(),
+            node.start_location(), node.end_location(), node.travel_distance());
+        if node.is_service() {
+            let _ = write!(text, "S {} {} {:?} {};", network.passengers_of(n), network.seated_passengers_of(n),
+                network.maximal_formation_count_for(n), type_name(network, network.vehicle_type_for(n)));
+        }
+        if node.is_maintenance() {
+            let _ = write!(text, "M {};", network.track_count_of_maintenance_slot(n));
+        }
+        for &m in nodes.iter() {
+            let _ = write!(text, "{}{},", if network.can_reach(n, m) { 1 } else { 0 }, network.dead_head_distance_between(n, m));
+        }
+    }
+    let mut types: Vec<VehicleTypeIdx> = network.vehicle_types().iter().collect();
+    types.sort_by_key(|&vt| type_name(network, vt));
+    for &vt in types.iter() {
+        let t = network.vehicle_types().get(vt).unwrap();
+        let _ = write!(text, "T {} {} {} {:?};", t.id(), t.seats(), t.capacity(), t.maximal_formation_count());
+    }
+    let mut depots: Vec<_> = network.depots_iter().collect();
+    depots.sort_by_key(|&d| network.node(network.get_start_depot_node(d)).id().to_string());
+    for d in depots {
+        let _ = write!(text, "D {} {};", network.node(network.get_start_depot_node(d)).id(), network.total_capacity_of(d));
+        for &vt in types.iter() {
+            let _ = write!(text, "{},", network.capacity_of(d, vt));
+        }
+    }
+    let c = network.config();
+    let _ = write!(text, "C {} {} {} {} {} {} {} {} {};", c.forbid_dead_head_trip, c.shunting.minimal, c.shunting.dead_head_trip,
+        c.maintenance.maximal_distance, c.costs.staff, c.costs.service_trip, c.costs.maintenance, c.costs.dead_head_trip, c.costs.idle);
+    let mut h: u64 = 0xcbf29ce484222325;
+    for b in text.as_bytes() {
+        h ^= *b as u64;
+        h = h.wrapping_mul(0x100000001b3);
+    }
+    format!("{:016x}", h)
+}
+
+fn type_name(network: &model::network::Network, vt: VehicleTypeIdx) -> String {
+    network.vehicle_types().get(vt).unwrap().id().clone()
 }
 
 pub fn node_id(schedule: &Schedule, node: NodeIdx) -> String {
